@@ -249,9 +249,13 @@ pub fn run(case: &Sx, dir: &Path) -> Vec<Out> {
                 }
                 "flush" => others.push(env.flush()),
                 "evict" => {
-                    // the eviction completes before the operations injected after it start
+                    // the eviction completes before the operations injected after it start, unless the parked
+                    // thread holds the partitions write lock (then it completes after the release)
                     let mut h = env.evict();
-                    h.wait(OP_DEADLINE);
+                    let t = Instant::now();
+                    while !h.poll() && t.elapsed() < Duration::from_millis(400) {
+                        std::thread::sleep(Duration::from_millis(2));
+                    }
                     others.push(h);
                 }
                 k => {
@@ -293,6 +297,7 @@ pub fn run(case: &Sx, dir: &Path) -> Vec<Out> {
                 all = false;
                 let started = match h.role {
                     Role::Ingester(_) => ctl.seen_since(from, h.role, "ingest:begin"),
+                    _ if h.name == "evict" => ctl.seen_since(from, Role::None, "h:evict_start"),
                     _ => ctl.seen_since(from, Role::None, "h:flush_start"),
                 };
                 if q_free || !started {
